@@ -106,6 +106,14 @@ TEMPLATES = [
     ('PAIR 3', ['int', 'nat', 'string', 'bool'], [P('PAIR', I(3))]),
     ('UNPAIR', ['pair int nat', 'string'], [P('UNPAIR')]),
     ('UNPAIR 3', ['pair int (pair nat string)'], [P('UNPAIR', I(3))]),
+    ('UNPAIR 2 on a 3-comb', ['pair int (pair nat string)', 'bool'], [P('UNPAIR', I(2))]),
+    ('UNPAIR 2 on a 4-comb', ['pair int (pair nat (pair string bytes))'], [P('UNPAIR', I(2))]),
+    ('UNPAIR 3 on a 4-comb', ['pair int (pair nat (pair string bytes))'], [P('UNPAIR', I(3))]),
+    ('UNPAIR 4 on a 4-comb', ['pair int (pair nat (pair string bytes))'], [P('UNPAIR', I(4))]),
+    ('PAIR 2 of 3', ['int', 'nat', 'string'], [P('PAIR', I(2))]),
+    ('GET 2 on a 3-comb', ['pair int (pair nat string)'], [P('GET', I(2))]),
+    ('UPDATE 0', ['bool', 'pair int (pair nat string)'], [P('UPDATE', I(0))]),
+    ('UPDATE 2', ['bool', 'pair int (pair nat string)'], [P('UPDATE', I(2))]),
     ('PAIR 3;UNPAIR 3', ['int', 'nat', 'string'], [P('PAIR', I(3)), P('UNPAIR', I(3))]),
     ('CAR', ['pair int nat'], [P('CAR')]),
     ('CDR', ['pair int (pair nat string)'], [P('CDR')]),
